@@ -523,9 +523,19 @@ def c09(ctx):
                     gcmds.append(gs_cmd(fn, gen.PREFIX[m], 0, None, "len", sz))
     ev4 = ctx.run_xcv(gcmds, flavour="O0")
     vg = judge_gs(ctx, ev4, "gs", config_event(ctx, "O0"))
+    # the digest primitives erase their context when finalised (every algorithm, lengths around the block boundaries)
+    pc = []
+    for a in ("md4", "md5", "sha1", "sha256", "sha512", "gost256", "gost512"):
+        for n in ((0, 1, 55, 56, 63, 64, 65, 119, 120, 128, 200) if quick else range(0, 300)):
+            msg = bytes(rng.randrange(1, 256) for _ in range(n))
+            pc.append("digest %s %s %s 0" % (a, msg.hex() or "=", ",".join(map(str, splits(rng, n, rng.choice(("one", "two")))))))
+    for kl in (0, 20, 64, 65, 130):
+        pc.append("hmacs %s %s 7,1000" % (bytes(rng.randrange(1, 256) for _ in range(kl)).hex() or "=", bytes(rng.randrange(256) for _ in range(90)).hex()))
+    vprim = judge_prim(ctx, run_prim(ctx, pc), "ctx", par=4, chunk=200)
     attribute(ctx)
     cov = mc_coverage(ctx, st, tr, v, allev,
                       {"behaviours_replayed": len(behs), "gensalt_calls_judged": sum(x["cnt"]["calls"] for x in vg),
+                       "digest_contexts_checked": sum(x["cnt"]["digest"] + x["cnt"]["hmac"] for x in vprim),
                        "predicates": ["EntropyErased (gensalt wipes what it drew; no needle on the O0 stack)", "Wiped (scratch zero iff validated, else untouched)",
                                       "NoLeak (no passphrase needle in object, freed heap, unmapped regions, O0 stack)",
                                       "Grow (undersized crypt_ra block erased before realloc)"],
@@ -1654,6 +1664,10 @@ def c16(ctx):
             for ml in ((0, 1, 20, 64, 200) if not quick else (rng.choice((0, 1, 20)), rng.choice((55, 64, 200)))):
                 cmds2.append("hmac %s %s %s" % (alg, bytes(rng.randrange(256) for _ in range(kl)).hex() or "=",
                                                 bytes(rng.randrange(256) for _ in range(ml)).hex() or "="))
+    for kl in ((0, 1, 32, 63, 64, 65, 100, 200) if quick else range(0, 201, 3)):
+        for ml in (0, 1, 55, 56, 64, 65, 130, 300):
+            key, msg = bytes(rng.randrange(256) for _ in range(kl)), bytes(rng.randrange(256) for _ in range(ml))
+            cmds2.append("hmacs %s %s %s" % (key.hex() or "=", msg.hex() or "=", ",".join(map(str, splits(rng, ml, rng.choice(("one", "two", "multi")))))))
     for dk in (range(1, 101) if not quick else (1, 31, 32, 33, 63, 64, 65, 96, 100)):
         for c in ((1, 2, 50) if not quick else (1, rng.choice((2, 3, 7)))):
             sl = rng.choice(list(range(0, 130)))
@@ -1898,7 +1912,7 @@ def c19(ctx):
         raise Broken("Config.tla: %s\n%s" % (r["violated"], r["out"][-1500:]))
     ALL = list(gen.METHODS)
     sels = [["bigcrypt"], ["gost_yescrypt"], ["scrypt"], ["descrypt"], [m for m in ALL if m != "descrypt"], [m for m in ALL if m != "yescrypt"],
-            [m for m in ALL if m != "scrypt"], NAMED_GROUPS["glibc"], ["md5crypt", "nt"], [m for m in ALL if m not in ("yescrypt", "bcrypt", "sha512crypt")]]
+            [m for m in ALL if m != "scrypt"], NAMED_GROUPS["glibc"], ["md5crypt", "nt"], ["yescrypt"], ["bcrypt_x", "bcrypt_a"], ["sha512crypt", "bigcrypt", "descrypt"], [m for m in ALL if m not in ("yescrypt", "bcrypt", "sha512crypt")]]
     if not quick:
         sels = [[m] for m in ALL] + [[x for x in ALL if x != m] for m in ALL] + list(NAMED_GROUPS.values())
         for _ in range(24):
